@@ -341,6 +341,11 @@ def main():  # noqa
         else:
             reported.append((jpath, cls, rep2['msg']))
 
+    if not agg['samples']:
+        # every worker summary was lost (e.g. all workers died): describe at least the first case of this run
+        b0 = binaries[phases[0]['variant']]
+        r = sh([b0, 'genplan', '--seed', str(seed * (1 << 20) + phases[0]['first']), '--prop', pid, '--tier', tier], cwd=VERIF)
+        agg['samples'].append({'seed': seed * (1 << 20) + phases[0]['first'], 'plan': [l for l in r.stdout.splitlines() if l.strip()][:40], 'note': 'plan of the first seed of this run (worker summaries unavailable)'})
     wall = time.time() - t0
     # ---- evidence ------------------------------------------------------------------------------
     cov = {
